@@ -129,7 +129,11 @@ MC_ExportMenu ==
                              \cup {<<<<>>, 32>>, <<Lit(<<0>>), 32>>, <<Leaf("ectxlong", 300), 32>>, <<Leaf("ectx1", 1), 32>>}
       [] ExpMenu = "sweep" -> {<<Leaf("ectx", 7), L>> : L \in SweepFrom..SweepTo}
       \* every exporter-context length in a range
-      [] ExpMenu = "ctxsweep" -> {<<Leaf("ectxL" \o ToString(n), n), 32>> : n \in SweepFrom..SweepTo}
+      \* (one output block and several: the two shapes of the HKDF-Expand loop)
+      [] ExpMenu = "ctxsweep" -> {<<Leaf("ectxL" \o ToString(n), n), L>> : n \in SweepFrom..SweepTo, L \in {32, 2 * NhC + 1}}
+      \* ... and around every power of two up to 2^16 (a scratch buffer of some "round" size)
+      [] ExpMenu = "ctxpow2" -> {<<Leaf("ectxL" \o ToString(n), n), L>> : L \in {32, 2 * NhC + 1},
+                                   n \in UNION {{p - 2, p - 1, p, p + 1, p + 2} : p \in {1024, 2048, 4096, 8192, 16384, 32768, 65536}}}
 
 NoSetups(x) == {}
 NoSetups2(x, y) == {}
